@@ -105,8 +105,12 @@ def run(chk):
         chk.anchor(b is not None, "R-CRC-SHAPE", "anchor missing: fn %s" % name)
         return b
 
-    def widths(b):
+    def widths(b, extra_locals=()):
+        """free variables of a routine's expressions may only be its parameters (or the named loop accumulators):
+        a shadowing local (`let crc = if crc == 0 {..}`) is a different value and is rejected"""
         def vw(e):
+            if not (1 <= e[1] <= b.argc or e[1] in extra_locals):
+                return None
             ty = b.ty(e[1])
             w = gf2.WIDTH.get(ty.get("n", ""))
             if ty["k"] == "int" and w:
@@ -234,7 +238,8 @@ def run(chk):
     b = body("crc::update_slow")
     if b:
         def step_slow(e, eb):
-            nz = gf2.Normalizer(widths(b), tables, elem_input({"iter"}))
+            accs = [l for l in range(b.argc + 1, len(b.locals)) if b.lname(l) == "crc"]
+            nz = gf2.Normalizer(widths(b, accs if len(accs) == 1 else ()), tables, elem_input({"iter"}))
             check_nf("update_slow", "loop update", e, upd32(gf2.var_bits("elem", 8)), nz)
         fold_loop("update_slow", b, "crc",
                   lambda e: e[0] == "un" and e[1] == "Not" and e[2][0] == "var" and e[2][2] == "prev",
@@ -331,7 +336,8 @@ def run(chk):
                         return ("buf%d" % x[2][1], 8)
                 return None
             if len(steps) == 1:
-                nz = gf2.Normalizer(widths(b), tables, buf_input)
+                accs = [l for l in range(b.argc + 1, len(b.locals)) if b.lname(l) == "result"]
+                nz = gf2.Normalizer(widths(b, accs if len(accs) == 1 else ()), tables, buf_input)
                 if check_nf("get_crc32", "unrolled 16-byte step", steps[0], exp, nz):
                     chk.sample("get_crc32 step = XOR of 16 lookups; slice k indexed by buf[15-k], slices 12..15 also by bytes 3..0 of result")
             else:
